@@ -97,9 +97,11 @@ def runGetq : List Nat → Msgq → List Ev → Bool → Msgq × List Ev × Bool
       | (w, m) :: ps => runGetq gs { q with putq := ps } (evs ++ [(w, 0, none), (r, 0, some m)]) s
       | [] => ({ q with getq := r :: gs }, evs, s)
 
-/-- nni_msgq_run_notify: (sendable, recvable) -/
+/-- nni_msgq_run_notify: (sendable, recvable).  Sendable is the *fixed* formula (finding C18N-2:
+    the pinned tree lacks the `nni_list_empty(&mq->mq_aio_putq) &&` conjunct, so the level stayed up
+    while nni_msgq_aio_put makes a new writer wait behind a parked one). -/
 def notify (q : Msgq) : Bool × Bool :=
-  (decide (q.len < q.cap) || !q.getq.isEmpty, decide (q.len ≠ 0) || !q.putq.isEmpty)
+  (q.putq.isEmpty && (decide (q.len < q.cap) || !q.getq.isEmpty), decide (q.len ≠ 0) || !q.putq.isEmpty)
 
 /-- nni_msgq_aio_put -/
 def aioPut (q : Msgq) (aio : Nat) (m : Msg) : Res :=
